@@ -310,7 +310,7 @@ func c52Corrupt(rt *rapid.T, keyjson []byte) c52Corruption {
 	case "address-nibble":
 		m["address"] = c52FlipHex(rt, m["address"].(string))
 	case "kdf-n":
-		kp["n"] = c52Other(rt, kp["n"], []int{4, 8, 1024}, "n")
+		kp["n"] = c52Other(rt, kp["n"], []int{4, 8, 64}, "n")
 		c.mustError = true
 	case "kdf-p":
 		kp["p"] = c52Other(rt, kp["p"], []int{2, 3, 1}, "p")
